@@ -1060,7 +1060,7 @@ fn main() {
 
     let threads = run.scale(4, 12);
     run.drive_enum_par("matrix", matrix(), threads, |c| judge(&run, &env, c));
-    let n = run.scale(400, 5000);
+    let n = run.scale(400, 15000);
     run.drive_par("random", n, threads, case_strategy(env.assets.len()), |c| judge(&run, &env, c));
     run.finish();
 }
